@@ -8,7 +8,7 @@ use std::{borrow::Cow, io};
 struct Src(Vec<u8>);
 impl Source for Src {
     fn read(&self, _id: &str, ext: &str) -> io::Result<FileContent<'_>> {
-        let i: usize = ext[1..].parse().unwrap();
+        let i: usize = if ext.is_empty() { 0 } else { ext[1..].parse().unwrap() };
         match self.0.get(i) {
             Some(b'o') => Ok(FileContent::Buffer(vec![b'0' + i as u8])),
             Some(b'c') => Ok(FileContent::Buffer(b"bad".to_vec())),
@@ -56,6 +56,12 @@ ty!(T2, &["e0", "e1"]);
 ty!(T3, &["e0", "e1", "e2"]);
 ty!(T4, &["e0", "e1", "e2", "e3"]);
 ty!(T5, &["e0", "e1", "e2", "e3", "e4"]);
+// the first declared extension is the empty string (words starting with '0')
+ty!(Z1, &[""]);
+ty!(Z2, &["", "e1"]);
+ty!(Z3, &["", "e1", "e2"]);
+ty!(Z4, &["", "e1", "e2", "e3"]);
+ty!(Z5, &["", "e1", "e2", "e3", "e4"]);
 ty!(D0, &[], dflt);
 ty!(D1, &["e0"], dflt);
 ty!(D2, &["e0", "e1"], dflt);
@@ -82,14 +88,18 @@ fn main() {
     let mut bad = false;
     for w in std::env::args().skip(1) {
         let dflt = w.starts_with('+');
-        let w0 = w.trim_start_matches('+');
+        let zfam = w.starts_with('0');
+        let w0 = w.trim_start_matches('+').trim_start_matches('0');
         let word: &[u8] = if w0 == "-" { b"" } else { w0.as_bytes() };
-        let actual = match (dflt, word.len()) {
+        let actual = if zfam { match word.len() {
+            0 | 1 => run::<Z1>(word, |v| v.0), 2 => run::<Z2>(word, |v| v.0), 3 => run::<Z3>(word, |v| v.0),
+            4 => run::<Z4>(word, |v| v.0), _ => run::<Z5>(word, |v| v.0),
+        } } else { match (dflt, word.len()) {
             (false, 0) => run::<T0>(word, |v| v.0), (false, 1) => run::<T1>(word, |v| v.0), (false, 2) => run::<T2>(word, |v| v.0),
             (false, 3) => run::<T3>(word, |v| v.0), (false, 4) => run::<T4>(word, |v| v.0), (false, _) => run::<T5>(word, |v| v.0),
             (true, 0) => run::<D0>(word, |v| v.0), (true, 1) => run::<D1>(word, |v| v.0), (true, 2) => run::<D2>(word, |v| v.0),
             (true, 3) => run::<D3>(word, |v| v.0), (true, 4) => run::<D4>(word, |v| v.0), (true, _) => run::<D5>(word, |v| v.0),
-        };
+        } };
         let expected = match word.iter().position(|&c| c == b'o') {
             Some(i) => format!("ok:{}", i),
             None if dflt => format!("ok:{}", 0xD0),
